@@ -14,14 +14,15 @@ PID = "C12"
 LEAN_MODULE = "NiVerif.Props.C12"
 NAMESPACE = "Props.C12"
 DRIVER = "drivers/C12.lean"
-GEN_MODULES = []
-EXTRA_LEAN_MODULES = ["NiVerif.Model.Heap"]
+GEN_MODULES = ["ExtProps"]
+EXTRA_LEAN_MODULES = ["NiVerif.Model.Heap", "NiVerif.Props.ExtProps"]
 THEOREMS = ["grow_same_cell", "appendGrow_same_cell", "view_cannot_grow", "cellOf_set", "readAt_writeAt", "read_write_other_cell", "writes_frame", "read_alloc_old", "read_alloc_new",
             "alloc_fresh", "copy_true_fresh", "copy_true_succeeds", "copy_true_isolates", "copy_false_shares",
             "no_silent_copy", "copy_false_outcomes", "write_slice", "read_slice", "window_write_lands_in_buffer",
             "window_read_is_buffer", "pick_getElem?", "column_write_lands_in_data", "read_write_same",
             "shared_write_visible", "writeMany_cell", "writeMany_read", "append_lands_in_caller_memory", "append_frame",
-            "loadAdopt_shares", "loadCopy_keeps_own_cell", "share_iff"]
+            "loadAdopt_shares", "loadCopy_keeps_own_cell", "share_iff",
+            "Props.ExtProps.gen_init_copies", "Props.ExtProps.gen_init_empty"]
 RULE = ("seeded scenarios: a source (owning 1-D/2-D array, slice, strided, reversed, row, column, memory-mapped file, list / "
         "nested list) x construction or load path (from_array_1d, from_array_2d, raw constructors, load_data on numeric "
         "waveforms / Spectrum / DigitalWaveform, DigitalWaveform.from_lines 1-D and 2-D, from_port(s), XYData and "
